@@ -36,6 +36,7 @@ type RespPlan struct {
 	TrailerStyle     string      `json:"trailer_style,omitempty"`      // announce | prefix
 	AnnounceCase     string      `json:"announce_case,omitempty"`      // spelling of the names in the Trailer header: "" canonical | lower | upper | given | lines (one header line per name)
 	StrayHTTPTrailer bool        `json:"stray_http_trailer,omitempty"` // a Connect-unary backend (whose trailers are Trailer- headers) also sets a real HTTP trailer, as a middleware might
+	CTCharset        bool        `json:"ct_charset,omitempty"`         // a REST backend labels its JSON "application/json; charset=utf-8"
 	CompressErrBody  bool        `json:"compress_err_body,omitempty"`  // a Connect-unary backend compresses its error body too (legal; connect-go does not)
 	EarlyTrailers    bool        `json:"early_trailers,omitempty"`     // prefix style: the first value of a multi-valued trailer is set before the head is written, the rest after the body
 	DeclareCL        string      `json:"declare_cl,omitempty"`         // "" | exact | +N | -N | =N
@@ -279,6 +280,9 @@ func (h *backendHandler) classify(obs *BackendObs, r *http.Request) {
 			obs.Codec = r.URL.Query().Get("encoding")
 		} else {
 			obs.Codec = strings.TrimPrefix(ct, "application/")
+			if obs.Codec == "json; charset=utf-8" { // the one parameter a Connect unary request may carry
+				obs.Codec = "json"
+			}
 		}
 	default:
 		obs.Protocol = ProtoREST
@@ -852,7 +856,15 @@ func (h *backendHandler) renderResponse(st *rpcState, obs *BackendObs, override 
 			break
 		}
 		rr.headers.Set("Content-Type", "application/json")
-		if len(msgs) > 0 {
+		if len(msgs) > 0 && msgs[0].RawPayload != nil {
+			// payload bytes given verbatim (fault injection): sent as they are, under the declared compression
+			rr.body = msgs[0].RawPayload
+			rr.nmsgs = 1
+			if comp != "" {
+				rr.headers.Set("Content-Encoding", comp)
+			}
+			rr.payloads = append(rr.payloads, rr.body)
+		} else if len(msgs) > 0 {
 			if h.schema.restEncodeResp != nil {
 				var ct string
 				rr.body, ct = h.schema.restEncodeResp(obs, msgs[0].Data)
@@ -867,7 +879,11 @@ func (h *backendHandler) renderResponse(st *rpcState, obs *BackendObs, override 
 				rr.body = refCompress(comp, rr.body)
 				rr.headers.Set("Content-Encoding", comp)
 			}
+			rr.payloads = append(rr.payloads, rr.body)
 		}
+	}
+	if rp.CTCharset && obs.Protocol == ProtoREST && rr.headers.Get("Content-Type") == "application/json" {
+		rr.headers.Set("Content-Type", "application/json; charset=utf-8") // what many REST servers say
 	}
 	if rp.ContentType != "" {
 		rr.headers.Set("Content-Type", rp.ContentType)
